@@ -301,6 +301,74 @@ impl St {
                     }
                 }
             }
+            Op::ShiftyRange(spec, mode, which) => {
+                let ra = spec.resolve(len);
+                let before = self.model.clone();
+                let obs_before = self.last_obs.clone();
+                let (mode, which) = (*mode, *which);
+                let r = self.call(move |b| b.shifty(ra, mode, which));
+                let (vals, addrs) = match r {
+                    Called::Injected => return Ok(Flow::Injected),
+                    Called::Panic(_) => {
+                        // rejecting the inconsistent bounds is fine, provided nothing happened to the contents
+                        let obs = self.observe()?;
+                        if obs.iter().map(|o| o.id).collect::<Vec<_>>() != before.iter().map(|m| m.0).collect::<Vec<_>>() {
+                            return Err("the call panicked on bounds that change between calls and left the contents changed".to_string());
+                        }
+                        self.flags |= fl::DOC_PANIC;
+                        return Ok(Flow::Done);
+                    }
+                    Called::Ok(v) => v,
+                };
+                let yielded: Vec<u32> = vals.iter().map(|t| t.raw_id()).collect();
+                let mut herr = None;
+                for t in vals {
+                    if let Err(e) = self.hold(t) {
+                        herr = Some(e);
+                    }
+                }
+                if let Some(e) = herr {
+                    return Err(e);
+                }
+                let obs = self.observe()?;
+                let now: Vec<u32> = obs.iter().map(|o| o.id).collect();
+                let was: Vec<u32> = before.iter().map(|m| m.0).collect();
+                if which % 3 == 0 {
+                    // whatever reading of the bounds was used: one contiguous block is gone, it contains what was yielded
+                    // (in order), and the rest is in place
+                    let x = now.iter().zip(was.iter()).take_while(|(a, b)| a == b).count();
+                    let gone = was.len().checked_sub(now.len()).ok_or("the buffer grew during a drain")?;
+                    if now[x..] != was[x + gone..] {
+                        return Err(format!("after drain with bounds that change between calls the contents {:?} are not the old contents {:?} with one contiguous block removed", now, was));
+                    }
+                    let block = &was[x..x + gone];
+                    let mut k = 0;
+                    for y in &yielded {
+                        match block[k..].iter().position(|b| b == y) {
+                            Some(p) => k += p + 1,
+                            None => return Err(format!("the drain yielded element id={y}, which is not in the removed block {:?} (or out of order)", block)),
+                        }
+                    }
+                    self.dead_ids.extend(block.iter().filter(|b| !yielded.contains(b)));
+                } else {
+                    if now != was {
+                        return Err("range / range_mut with bounds that change between calls changed the contents".to_string());
+                    }
+                    // the view walked a contiguous run of the contents, front to back
+                    let pos: Vec<Option<usize>> = addrs.iter().map(|a| obs_before.iter().position(|o| o.addr == *a)).collect();
+                    for w in pos.windows(2) {
+                        if w[0].is_none() || w[1].is_none() || w[1].unwrap() != w[0].unwrap() + 1 {
+                            return Err(format!("range with bounds that change between calls yielded positions {:?}, which is not a contiguous run of the contents", pos));
+                        }
+                    }
+                    if pos.len() == 1 && pos[0].is_none() {
+                        return Err("range with bounds that change between calls yielded a reference outside the contents".to_string());
+                    }
+                }
+                self.model = obs.iter().map(|o| (o.id, o.val)).collect();
+                self.flags |= fl::READ_OR_MOVED;
+                Ok(Flow::Done)
+            }
             Op::Set(acc, idx) | Op::Mutate(acc, idx) => {
                 let set = matches!(op, Op::Set(..));
                 let p = idx.resolve(len);
